@@ -816,6 +816,8 @@ class CircuitTemplate(AbstractBaseTemplate):
             for key, value in node_values.items():
                 *node_id, op, var = key.split("/")
                 target_nodes = self.get_nodes(node_id)
+                if not target_nodes:
+                    raise PyRatesException(f"The key `{key}` of `node_values` does not address any node of the network.")
                 for i, n in enumerate(target_nodes):
                     if n not in values:
                         values[n] = dict()
